@@ -43,7 +43,8 @@ func (s *Spark) WriteTable(agg *aggregation.TableAggregator, rowSorter, colSorte
 
 	// Write header
 	if len(colNames) > 0 {
-		dots := len(colNames) - len(colNames[0]) - len(colNames[len(colNames)-1])
+		// visible width (runes outside color codes), so the last name ends above the last column
+		dots := len(colNames) - color.StrLen(colNames[0]) - color.StrLen(colNames[len(colNames)-1])
 		if dots < 0 {
 			dots = 0
 		}
